@@ -1060,6 +1060,26 @@ func boundaryOffsets() []int {
 	return out
 }
 
+// idleReader delivers 1..7 bytes per productive call and nothing at all (0, nil) on every other call.
+type idleReader struct {
+	data  []byte
+	calls int
+}
+
+func (r *idleReader) Read(p []byte) (int, error) {
+	r.calls++
+	if len(r.data) == 0 {
+		return 0, io.EOF
+	}
+	if r.calls%2 == 0 || len(p) == 0 {
+		return 0, nil
+	}
+	n := min(1+(r.calls/2)%7, len(p), len(r.data))
+	copy(p, r.data[:n])
+	r.data = r.data[n:]
+	return n, nil
+}
+
 func boundaryObservation(text string, reader int) string {
 	intp := postscript.NewInterpreter()
 	var err error
@@ -1068,8 +1088,11 @@ func boundaryObservation(text string, reader int) string {
 		err = intp.ExecuteString(text)
 	case 1:
 		err = intp.Execute(&dataWithEOF{data: []byte(text)})
-	default:
+	case 2:
 		err = intp.Execute(oneByte{strings.NewReader(text)})
+	default:
+		// chunks of 1..7 bytes, every other call an idle read (0, nil), which io.Reader permits
+		err = intp.Execute(&idleReader{data: []byte(text)})
 	}
 	return fmt.Sprintf("stack=%#v dsc=%#v err=%v", intp.Stack, intp.DSC, err)
 }
@@ -1079,7 +1102,7 @@ func boundaryFamily(budget time.Duration) mc.Family {
 	pads := []string{" ", "\n", "% pad\n"} // what the padding is made of; it always ends with a line end
 	n := len(boundarySnippets) * len(offs) * len(pads)
 	return mc.Family{Name: "buffer-boundaries", Items: n, Budget: budget,
-		Rule: fmt.Sprintf("%d snippets (DSC comments with `%%%%+` continuations in LF/CRLF/CR form, strings with line continuations, escapes and CR LF pairs, hex and ASCII85 strings, comments, numbers in every notation, names and delimiters without white space) x placed behind p bytes of padding (blanks / line feeds / comment lines, ending in a line end) for every p in %d..%d, %d..%d, %d..%d x 3 readers (all at once, last bytes together with io.EOF, one byte per call): objects, DSC comments and error must equal those of the snippet at offset 0; non-trivial = all", len(boundarySnippets), offs[0], offs[17], offs[18], offs[35], offs[36], offs[len(offs)-1]),
+		Rule: fmt.Sprintf("%d snippets (DSC comments with `%%%%+` continuations in LF/CRLF/CR form, strings with line continuations, escapes and CR LF pairs, hex and ASCII85 strings, comments, numbers in every notation, names and delimiters without white space) x placed behind p bytes of padding (blanks / line feeds / comment lines, ending in a line end) for every p in %d..%d, %d..%d, %d..%d x 4 readers (all at once, last bytes together with io.EOF, one byte per call, chunks of 1..7 bytes with an idle read (0, nil) between any two): objects, DSC comments and error must equal those of the snippet at offset 0; non-trivial = all", len(boundarySnippets), offs[0], offs[17], offs[18], offs[35], offs[36], offs[len(offs)-1]),
 		Body: func(c *mc.Ctx, item int) mc.Verdict {
 			sn := boundarySnippets[item%len(boundarySnippets)]
 			p := offs[(item/len(boundarySnippets))%len(offs)]
@@ -1093,7 +1116,7 @@ func boundaryFamily(budget time.Duration) mc.Family {
 			if strings.Contains(want, "err=<nil>") == false {
 				return mc.Fail("C04:HARNESS:boundary-snippet-fails-at-offset-0", fmt.Sprintf("%q: %s", sn, want))
 			}
-			for reader := 0; reader < 3; reader++ {
+			for reader := 0; reader < 4; reader++ {
 				got := boundaryObservation(pad+sn, reader)
 				c.Step()
 				if got != want {
